@@ -103,11 +103,25 @@ def stage(pid, pairs, tier, seed, cap_quick=60, cap_thorough=400, parts=PARTS, e
     iout = [None] * len(cases)
     for ci, ch in enumerate(outs):
         for k, lines in enumerate(ch): iout[ci + k * core.JOBS] = lines
-    # 2. the model on the two sequential orders
-    mcases = []
-    for (_, setup, a, b, tail) in pairs:
-        mcases.append(setup + ["MARK par", f"C {a[0]} {core.esc(a[1].encode())}", f"C {b[0]} {core.esc(b[1].encode())}"] + tail)
-        mcases.append(setup + ["MARK par", f"C {b[0]} {core.esc(b[1].encode())}", f"C {a[0]} {core.esc(a[1].encode())}"] + tail)
+    # 2. the model on the two sequential orders.  A snapshot in the setup writes the keys in the map's iteration order, which differs from
+    # run to run of the implementation: the model is given the order THAT run reported (the `@ SNAP order=…` annotation), so a pair whose
+    # setup snapshots gets its own two model runs per schedule
+    def with_ann(setup, lines):
+        ann = [l[2:] for l in (lines or []) if l.startswith("@ SNAP")]
+        it = iter(ann); out = []
+        for l in setup:
+            out.append(next(it, l) if l == "SNAP" else l)
+        return out
+    mcases = []; mindex = {}; mjob = []
+    for k, (pi, sch) in enumerate(jobs):
+        (_, setup, a, b, tail) = pairs[pi]
+        st = with_ann(setup, iout[k]) if "SNAP" in setup else setup
+        key = (pi, "\n".join(st))
+        if key not in mindex:
+            mindex[key] = len(mcases)
+            mcases.append(st + ["MARK par", f"C {a[0]} {core.esc(a[1].encode())}", f"C {b[0]} {core.esc(b[1].encode())}"] + tail)
+            mcases.append(st + ["MARK par", f"C {b[0]} {core.esc(b[1].encode())}", f"C {a[0]} {core.esc(a[1].encode())}"] + tail)
+        mjob.append(mindex[key])
     mout = run_model(mcases, pid)
     failures = []; stats = {}
     for k, (pi, sch) in enumerate(jobs):
@@ -116,7 +130,7 @@ def stage(pid, pairs, tier, seed, cap_quick=60, cap_thorough=400, parts=PARTS, e
         if lines is None: continue
         sids = (a[0], b[0])
         oi = outcome(core.canon_case(lines), sids, True)
-        seq = [outcome(core.canon_case(mout[2 * pi]), sids, False), outcome(core.canon_case(mout[2 * pi + 1]), sids, False)]
+        seq = [outcome(core.canon_case(mout[mjob[k]]), sids, False), outcome(core.canon_case(mout[mjob[k] + 1]), sids, False)]
         trace = next((l for l in lines if l.startswith("S ")), "S ")
         st = stats.setdefault(name, dict(schedules=0, ab=0, ba=0, neither=0, deadlock=0))
         st["schedules"] += 1
